@@ -632,9 +632,9 @@ def _model_backed(ctx, rid, structural):
         err = e_
     for k_, v_ in sub.counters.items():
         if isinstance(v_, set):
-            ctx.counters[k_] |= v_
+            ctx.counters[k_] = ctx.counters.get(k_, set()) | v_
         else:
-            ctx.counters[k_] += v_
+            ctx.counters[k_] = ctx.counters.get(k_, 0) + v_
     for k_, v_ in getattr(sub, 'exhaustive', {}).items():
         ctx.exhaustive[k_] = v_
     if hasattr(sub, 'handler_states'):
